@@ -1252,7 +1252,8 @@ func firstContactRace(res *core.Result, r *rand.Rand, runs int) {
 			return
 		}
 		// the receiver forgets the (unused, keyless) session object: more than its idle lifetime passes, the cleaner ticks
-		b.StateV.VerifAdvanceTime(3 * time.Minute)
+		// (hours, not minutes: how long an unused session is kept is the tree's own business)
+		b.StateV.VerifAdvanceTime(5 * time.Hour)
 		b.StateV.VerifHousekeeping()
 		if b.StateV.VerifHasSession(a.IdentityV.IP) {
 			res.Count("first_contact_session_not_dropped_by_cleaner", 1)
